@@ -240,7 +240,22 @@ func (f *c01RtFar) total() (n, streams int) {
 	return n, len(f.streams)
 }
 
+// once one wait of a case has run out the rest of that case only gets a short grace (the case has
+// failed anyway); c01RtPatience is reset at the start of every case
+var c01RtPatience = true
+
 func c01RtWait(cond func() bool, d time.Duration) bool {
+	if !c01RtPatience {
+		d = 200 * time.Millisecond
+	}
+	ok := c01RtWaitFor(cond, d)
+	if !ok {
+		c01RtPatience = false
+	}
+	return ok
+}
+
+func c01RtWaitFor(cond func() bool, d time.Duration) bool {
 	deadline := time.Now().Add(d)
 	for !cond() {
 		if time.Now().After(deadline) {
@@ -279,6 +294,7 @@ func c01RtTCP(fs []string) string {
 		// one P: whatever the parked goroutine left in per-P caches (sync.Pool) is what the next one finds
 		defer runtime.GOMAXPROCS(runtime.GOMAXPROCS(atoi(fs[7])))
 	}
+	c01RtPatience = true
 	clientSesh, serverSesh := c01RtPair(false)
 	defer clientSesh.Close()
 	defer serverSesh.Close()
@@ -299,26 +315,35 @@ func c01RtTCP(fs []string) string {
 		select {
 		case <-A.arrived:
 			parked = true
-		case <-time.After(300 * time.Millisecond):
-			// position not reached (the relay no longer makes that call): go on without the park
+		case <-time.After(2 * time.Second):
+			// position not reached (the relay no longer makes that call): go on without the park;
+			// a relay goroutine that gets there later must not be left parked
+			A.mu.Lock()
+			late := A.parkAt == 0
+			A.parkAt = 0
+			A.mu.Unlock()
+			if late {
+				<-A.arrived
+				parked = true
+			}
 		}
 	}
 	before, _ := far.total()
 	B.feed(pB)
 	ln.ch <- B
 	if parked {
-		if c01RtWait(func() bool { n, _ := far.total(); return n >= before+lenB }, 3*time.Second) {
+		if c01RtWait(func() bool { n, _ := far.total(); return n >= before+lenB }, 20*time.Second) {
 			state = "D"
 		} else {
 			state = "T"
 		}
 		close(A.release)
 	}
-	c01RtWait(func() bool { n, k := far.total(); return k >= 2 && n >= lenA+lenB }, 3*time.Second)
+	c01RtWait(func() bool { n, k := far.total(); return k >= 2 && n >= lenA+lenB }, 20*time.Second)
 	A.feed(qA)
 	B.feed(qB)
-	c01RtWait(func() bool { n, _ := far.total(); return n >= lenA+lenB+len2A+len2B }, 3*time.Second)
-	c01RtWait(func() bool { return A.downLen() > 0 && B.downLen() > 0 }, 3*time.Second)
+	c01RtWait(func() bool { n, _ := far.total(); return n >= lenA+lenB+len2A+len2B }, 20*time.Second)
+	c01RtWait(func() bool { return A.downLen() > 0 && B.downLen() > 0 }, 20*time.Second)
 	// second downstream message on each stream, after the mapping is known
 	far.mu.Lock()
 	streams := append([]*c01RtFarStream(nil), far.streams...)
@@ -326,7 +351,7 @@ func c01RtTCP(fs []string) string {
 	for i, s := range streams {
 		s.st.Write([]byte(fmt.Sprintf("<more-for-far-stream-%d>", i)))
 	}
-	c01RtWait(func() bool { return A.downLen() >= 40 && B.downLen() >= 40 }, 2*time.Second)
+	c01RtWait(func() bool { return A.downLen() >= 40 && B.downLen() >= 40 }, 20*time.Second)
 	time.Sleep(2 * time.Millisecond)
 	res := map[string]string{}
 	wantUp := map[string][]byte{"A": append(append([]byte{}, pA...), qA...), "B": append(append([]byte{}, pB...), qB...)}
